@@ -99,6 +99,9 @@ def r1_r3(ctx):
                     ctx.check(not anyl, 'C20.R1', f'{func_label(fn)}|no-throttling-without-limit:{meth}', site, f'{cmd} [no limit]: the stream is not throttled', f'{cmd}: without a rate limit the stream is still wrapped by a limiter')
 
 
+_DIVISORS_SEEN = []
+
+
 def _chunk_size_ok(cs):
     if cs is None:
         return False, 'no chunk size passed'
@@ -117,6 +120,7 @@ def _chunk_size_ok(cs):
     k = 1
     for v in ks:
         k *= v
+    _DIVISORS_SEEN.append(k)
     if k < 4:
         return False, f'the divisor constant is {k} < 4 (the property assumes d <= L/4)'
     # all streams of the command share the one limiter: the unit is divided by their number, so that the pieces the N
@@ -308,6 +312,41 @@ def r3b_transfer_unit_respected(ctx):
             f'{f.name}: `{src(bad, 60) if bad is not None else ""}` does not use the `chunk_size` argument: streams are read in units the command did not choose, a single read can owe more than the capped debt and the excess is forgiven - the limit is exceeded',
         )
     ctx.floor('C20.R3', 'piece-size uses in the chunk iterators', n, 2)
+    # the adapters move a stream in the pieces the command sized to the limit: the granularity handed to copyfileobj /
+    # aiter_chunks / aiter_bytes / read is the method's `chunk_size`, not the object length or a constant of their own
+    from .backends import backend_classes, own_methods
+
+    m = 0
+    for ci in backend_classes(corpus):
+        for mname in ('upload_stream', 'download_stream'):
+            f = own_methods(corpus, ci).get(mname)
+            if f is None or 'chunk_size' not in [a.arg for a in f.node.args.posonlyargs + f.node.args.args + f.node.args.kwonlyargs]:
+                continue
+            for c in calls_in(f.node):
+                d = dotted(c.func) or ''
+                size = None
+                if d.endswith('copyfileobj'):
+                    size = kwarg(c, 'length') or (c.args[2] if len(c.args) > 2 else None)
+                    if size is None:
+                        size = ast.Constant(value=None)
+                elif d.endswith(('aiter_chunks', 'iter_chunks')):
+                    size = kwarg(c, 'chunk_size') or (c.args[1] if len(c.args) > 1 else None)
+                elif isinstance(c.func, ast.Attribute) and c.func.attr in ('aiter_bytes', 'iter_bytes', 'aiter_raw', 'iter_raw'):
+                    size = c.args[0] if c.args else (kwarg(c, 'chunk_size') or ast.Constant(value=None))
+                if size is None:
+                    continue
+                m += 1
+                sv = deref(f.node, size) if isinstance(size, ast.Name) else size
+                ctx.check(
+                    isinstance(sv, ast.Name) and sv.id == 'chunk_size',
+                    'C20.R3',
+                    f'{func_label(f)}|adapter-moves-the-stream-in-command-sized-pieces',
+                    loc(f, c),
+                    f'{ci.name}.{mname}: `{src(c.func, 30)}` moves the stream in pieces of `chunk_size`',
+                    f'{ci.name}.{mname}: `{src(c, 60)}` moves the stream in pieces of `{src(size, 30)}`, not the `chunk_size` the command sized to the limit: one read of the whole object owes more than the capped debt can hold '
+                    'and most of the pause is forgiven',
+                )
+    ctx.floor('C20.R3', 'stream-moving calls in the adapters', m, 4)
 
 
 def r5_wrapper(ctx):
@@ -364,8 +403,37 @@ def r5_wrapper(ctx):
     ctx.check(ok, 'C20.R5', f'{func_label(wr)}|wrap-shape', loc(wr, wr.node) if wr else rl.module.rel, 'RateLimitedIO.wrap(file) = _RateLimitedFileWrapper(file, self)', 'RateLimitedIO.wrap changed')
 
 
+def r4b_cap_holds_what_can_accumulate(ctx):
+    """The debt of a direction grows by at most 1/k seconds per piece (pieces are L/(k*N) bytes, k the constant in the
+    transfer unit) and is slept off as soon as it exceeds PAUSE_THRESHOLD_SECONDS; so it never exceeds threshold + 1/k.
+    The cap PAUSE_LIMIT must not be below that - otherwise owed time is silently forgiven on every cycle and a stream
+    runs faster than the limit (with k = 4 and a cap of 0.4 s: 1.25 x L)."""
+    corpus = ctx.corpus
+    rl = corpus.cls('utils', 'RateLimitedIO')
+
+    def const(name):
+        v = corpus.class_const(rl, name)
+        return v.value if isinstance(v, ast.Constant) and isinstance(v.value, (int, float)) else None
+
+    thr, cap = const('PAUSE_THRESHOLD_SECONDS'), const('PAUSE_LIMIT')
+    if thr is None or cap is None or not _DIVISORS_SEEN:
+        raise AnalysisError('C20.R4: PAUSE_THRESHOLD_SECONDS / PAUSE_LIMIT / transfer-unit divisor not found as numeric constants')
+    k = min(_DIVISORS_SEEN)
+    need = thr + 1.0 / k
+    ctx.check(
+        cap + 1e-9 >= need,
+        'C20.R4',
+        f'{rl.module.rel}|RateLimitedIO|cap-holds-what-can-accumulate',
+        f'{rl.module.rel}:{rl.node.lineno}',
+        f'PAUSE_LIMIT ({cap}) >= PAUSE_THRESHOLD_SECONDS ({thr}) + 1/{k} (the most one piece can owe): the cap never cuts debt that was really incurred',
+        f'PAUSE_LIMIT ({cap}) < PAUSE_THRESHOLD_SECONDS ({thr}) + 1/{k} = {need:.4g}: with pieces of L/({k}*N) bytes a single stream reaches the cap before it sleeps, the excess is dropped each cycle and the stream passes more than L per second',
+    )
+
+
 def run(ctx):
+    del _DIVISORS_SEEN[:]
     r1_r3(ctx)
+    r4b_cap_holds_what_can_accumulate(ctx)
     r3b_transfer_unit_respected(ctx)
     r2_one_limiter(ctx)
     r4_debt_lock(ctx)
